@@ -315,7 +315,7 @@ pub fn check(tier: Tier) -> i32 {
 	report.assume("option sets and key/value alphabets are fixed finite lists");
 	// schedule part: a long-lived reader's begin and repeated reads interleaved with committers,
 	// flush and compaction at the hook points (preemption-bounded)
-	let code = crate::props::sched::run_into(&mut report, "C01", tier, if tier == Tier::Quick { 10.0 } else { 300.0 });
+	let code = crate::props::sched::run_into(&mut report, "C01", tier, if tier == Tier::Quick { 16.0 } else { 300.0 });
 	if code != 0 {
 		return code;
 	}
